@@ -37,6 +37,7 @@ class QHooks:
         v('none_results', z3.BitVecSort(4))
         v('tokens_popped', z3.BitVecSort(4))
         v('early_none', z3.BoolSort())
+        v('last_payload', BV64)
         v('pop_none_without_token', z3.BoolSort())
         v('unblocks_done', z3.BitVecSort(4))
         for r in self.receivers:
@@ -72,6 +73,7 @@ class QHooks:
                 S['last:%s:%s' % (n, p)] = z3.If(hit, z3.BitVecVal(seq + 1, 4), last)
             S['bad_payload'] = z3.Or(S['bad_payload'], z3.And(is_some, z3.Not(okp)))
             S['none_results'] = z3.If(is_some, S['none_results'], S['none_results'] + 1)
+            S['last_payload'] = z3.If(is_some, payload, S['last_payload'])
             S['kf_consumed'] = z3.Or(S['kf_consumed'], z3.And(z3.Not(is_some), S['wokenNT:' + n]))
             S['wokenNT:' + n] = z3.BoolVal(False)
             if len(ev.args) > 3:
@@ -141,18 +143,20 @@ def build_model(S, P, m, C, r, U, K, flavours=('pop', 'try_pop', 'pop_timeout'),
             ids.append(i)
             prod[i] = ('p%d' % p, j)
 
-        def prog_p(it, w, my=my):
-            mq = init(it, w)
-            for i in my:
+        segs = []
+        for j, i in enumerate(my):
+            def prog_p(it, w, i=i):
+                mq = init(it, w)
                 it.run_fn(f_push, [Ref(mq.cell), bv(i)])
-                # `&self` is &MessagesQueue: deref the Arc
-        threads.append(('p%d' % p, prog_p))
+            segs.append(('p%d.s%d' % (p, j), prog_p))
+        threads.append(('p%d' % p, segs))
     for c in range(C):
         segs = []
         for j in range(r):
             def prog_c(it, w, c=c, j=j):
                 mq = init(it, w)
-                fl = flavours[it.ctx.choose(len(flavours), 'flavour')] if len(flavours) > 1 else flavours[0]
+                myfl = flavours[c] if isinstance(flavours[0], (tuple, list)) else flavours
+                fl = myfl[it.ctx.choose(len(myfl), 'flavour')] if len(myfl) > 1 else myfl[0]
                 early = None
                 if fl == 'pop_timeout':
                     T = w.fresh_bv('T_ns')
@@ -186,7 +190,11 @@ def build_model(S, P, m, C, r, U, K, flavours=('pop', 'try_pop', 'pop_timeout'),
         segs = pr if isinstance(pr, list) else [(name, pr)]
         trees = []
         for sname, sp in segs:
-            tree = bmc.unfold(S, sname, sp, max_events=max_events, elem_kinds=kinds, elem_makers=makers)
+            # loop-free programs (push / unblock) get a generous bound; a frontier there would mean the bound is too small
+            me = max_events if name.startswith('c') else 40
+            tree = bmc.unfold(S, sname, sp, max_events=me, elem_kinds=kinds, elem_makers=makers)
+            if not name.startswith('c') and tree.terms.get('frontier'):
+                raise Unsupported('producer program exceeds the event bound (unexpected loop)')
             encoded |= tree.encoded
             trees.append(tree)
         tl.append(bmc.Thread(name, trees))
@@ -233,8 +241,9 @@ def c07_queries(enc):
     qs.append(('no-lost-wakeup/known-finding-still-present', z3.Or(*lostw), [nf, SK['kf_consumed']]))
     # vacuity witnesses (must be SAT)
     qs.append(('witness/some-delivery', z3.Or(*[SK['dcount:%d' % i] == 1 for i in enc.ids]), [nf]))
-    qs.append(('witness/receiver-parks-and-is-woken', z3.Or(*[z3.And(enc.S[k]['parked:' + t.name], enc.S[k]['notified:' + t.name])
-                                                                for k in range(K + 1) for t in enc.threads if t.park_locs]), [nf]))
+    parkers = [t for t in enc.threads if t.park_locs]
+    if parkers:
+        qs.append(('witness/receiver-parks', z3.Or(*[enc.S[K]['parked:' + t.name] for t in parkers]), [nf]))
     panics = [enc.at_term(t, enc.S[k], 'panic') for k in range(K + 1) for t in enc.threads]
     qs.append(('no-panic-in-queue-code', z3.Or(*panics), [nf]))
     return qs
@@ -242,9 +251,11 @@ def c07_queries(enc):
 
 CONFIGS = {
     # name: (P, m, C, r, U, K, flavours, max_events)
-    'quick': [('1p1m-2c1r', 1, 1, 2, 1, 0, 8, ('pop', 'try_pop', 'pop_timeout'), 8),
-              ('1p2m-2c1r', 1, 2, 2, 1, 0, 10, ('pop', 'try_pop', 'pop_timeout'), 8)],
-    'thorough': [('1p1m-2c1r', 1, 1, 2, 1, 0, 10, ('pop', 'try_pop', 'pop_timeout'), 10),
+    'quick': [('1p1m-pop+timed', 1, 1, 2, 1, 0, 7, (('pop',), ('pop_timeout',)), 10),
+              ('1p1m-2timed', 1, 1, 2, 1, 0, 7, (('pop_timeout',), ('pop_timeout',)), 10),
+              ('1p2m-2c1r', 1, 2, 2, 1, 0, 9, ('pop', 'try_pop'), 10)],
+    'thorough': [('1p1m-pop+timed', 1, 1, 2, 1, 0, 8, (('pop',), ('pop_timeout',)), 10),
+                 ('1p1m-2c1r', 1, 1, 2, 1, 0, 10, ('pop', 'try_pop', 'pop_timeout'), 10),
                  ('1p2m-2c1r', 1, 2, 2, 1, 0, 12, ('pop', 'try_pop', 'pop_timeout'), 10),
                  ('2p1m-2c2r', 2, 1, 2, 2, 0, 12, ('pop', 'try_pop', 'pop_timeout'), 8),
                  ('2p1m-3c1r', 2, 1, 3, 1, 0, 12, ('pop', 'pop_timeout'), 8)],
@@ -276,7 +287,7 @@ def run_configs(L, rep, tier, seed, prop, configs, make_queries, known_map, timi
         qs = [q for q in qs if not q[0].startswith('witness/')]
         res = bmc.solve_many(enc, qs, timeout_ms=timeout_ms, seed=seed, jobs=int(__import__('os').environ.get('VERIF_JOBS', '14')))
         if wq:
-            encw = bmc.Encoder(enc.threads, enc.objects, min(K, 7), cap=enc.cap, spurious=enc.spurious, hooks=enc.hooks, symmetry=enc.symmetry)
+            encw = bmc.Encoder(enc.threads, enc.objects, min(K, 5), cap=enc.cap, spurious=enc.spurious, hooks=enc.hooks, symmetry=enc.symmetry)
             encw.ids = enc.ids
             encw.build()
             wq2 = [q for q in make_queries(encw) if q[0].startswith('witness/')]
@@ -285,7 +296,7 @@ def run_configs(L, rep, tier, seed, prop, configs, make_queries, known_map, timi
         rep.states += sum(len(t.locs) for t in enc.threads)
         rep.transitions += ncmd
         rep.bounds[name] = {'producers': P, 'pushes_each': m, 'receivers': C, 'calls_each': r, 'unblockers': U, 'K_steps': K,
-                            'flavours': list(fl), 'max_events_per_thread': me, 'commands': ncmd,
+                            'flavours': [list(x) if isinstance(x, (tuple, list)) else x for x in fl], 'max_events_per_thread': me, 'commands': ncmd,
                             'tree_nodes': {t.name: len(t.tree.nodes) for t in enc.threads},
                             'lock_protected_objects': enc.protected, 'unfold_build_s': round(time.time() - t0, 1)}
         for (qn, verdict, secs, tr, exx) in res:
@@ -324,3 +335,59 @@ KNOWN = {'no-lost-wakeup/known-finding-still-present': 'pop-timeout-consumes-not
 
 def run(L, rep, tier, seed):
     run_configs(L, rep, tier, seed, 'C07', CONFIGS[tier], c07_queries, KNOWN)
+    single_call_contracts(L, rep, tier, seed, 'C07')
+
+
+def single_call_contracts(L, rep, tier, seed, prop):
+    """each receive flavour, alone, from an ARBITRARY queue content (<= 3 entries of requests / tokens): the call returns
+    the head request, or nothing when the head is a token (consuming exactly it) or the queue is empty (try / timed);
+    the rest of the queue is untouched. One thread, so this is sequential reasoning; it complements the schedules above."""
+    S = Session(L, rep, seed)
+    for fl in ('try_pop', 'pop', 'pop_timeout'):
+        enc, hooks = build_model(S, 0, 0, 1, 1, 0, 4, flavours=(fl,), max_events=10)
+        enc.free_queues = {'queue0'}
+        enc.cap = 4
+        enc.ids = []
+        enc.build()
+        S0, SK = enc.S[0], enc.S[enc.K]
+        c0 = enc.threads[0]
+        nf = z3.Not(enc.frontier_reached())
+        len0 = S0['q:queue0:len']
+        k0, p0 = S0['q:queue0:k0'], S0['q:queue0:p0']
+        done = enc.at_term(c0, SK, 'end')
+        kinds_ok = z3.And(*[z3.ULE(S0['q:queue0:k%d' % i], 1) for i in range(enc.cap)])
+        # observed result: none_results counts empty-handed returns; got payload recorded through bad_payload (ids empty => any Some is 'foreign')
+        res_none = SK['none_results'] == 1
+        rest_ok = z3.And(SK['q:queue0:len'] == len0 - 1, *[z3.Implies(z3.UGT(len0, i + 1), z3.And(SK['q:queue0:k%d' % i] == S0['q:queue0:k%d' % (i + 1)],
+                                                                                                     SK['q:queue0:p%d' % i] == S0['q:queue0:p%d' % (i + 1)])) for i in range(enc.cap - 1)])
+        qs = []
+        # head is a request: must be returned (Some) and removed
+        qs.append(('%s/head-request-is-returned' % fl, z3.And(done, z3.UGT(len0, 0), k0 == 0, z3.Or(res_none, z3.Not(rest_ok), hooks_last_payload(enc) != p0)), [nf, kinds_ok]))
+        # head is a token: returns nothing, consumes exactly the token
+        qs.append(('%s/head-token-releases-this-call' % fl, z3.And(done, z3.UGT(len0, 0), k0 == 1, z3.Or(z3.Not(res_none), z3.Not(rest_ok))), [nf, kinds_ok]))
+        if fl == 'try_pop':
+            qs.append(('%s/empty-returns-nothing' % fl, z3.And(done, len0 == 0, z3.Or(z3.Not(res_none), SK['q:queue0:len'] != 0)), [nf, kinds_ok]))
+        qs.append(('witness/%s-returns' % fl, done, [nf, kinds_ok, z3.UGT(len0, 0)]))
+        res = bmc.solve_many(enc, qs, timeout_ms=120000, seed=seed, jobs=4)
+        rep.functions.update(enc.encoded)
+        for (qn, verdict, secs, tr, exx) in res:
+            rep.queries += 1
+            rep.solver_seconds += secs
+            full = 'single-call/' + qn
+            if qn.startswith('witness/'):
+                rep.obligation(full, 'holds' if verdict == 'sat' else 'inconclusive', solver=verdict)
+                if verdict != 'sat':
+                    rep.inconc(full + ': witness not found')
+            elif verdict == 'unsat':
+                rep.obligation(full, 'unsat', seconds=round(secs, 1))
+            elif verdict == 'sat':
+                rep.obligation(full, 'sat', seconds=round(secs, 1))
+                rep.violation(Violation(prop, None, '%s: a single %s call on some queue content misbehaves: %s' % (full, fl, describe(tr)),
+                                        {'kind': 'single-call', 'flavour': fl, 'schedule': tr}, full))
+            else:
+                rep.obligation(full, 'unknown')
+                rep.inconc(full + ': solver returned ' + verdict)
+
+
+def hooks_last_payload(enc):
+    return enc.S[enc.K]['last_payload']
